@@ -933,3 +933,50 @@ def game_ended_only_through_its_api(chk, rule):
                construct=u.func.ident if u.func is not None else u.relpath, text="game mode stopped directly in " + (u.scope or u.relpath))
     chk.ob(rule, "callers that end the game go through end_game() / end_ball() (%d call sites), none stops the game mode directly" % n_api, n_api >= 2 and not bad,
            "mpf/modes/game/code/game.py:1", nontrivial=False)
+
+
+UNLOAD_TABLED = {
+    # (class, call text) -> reason
+    ("Multiball", "self.stop()"): "a running multiball is stopped with its mode only while shoot-again still adds balls; otherwise it ends by its balls draining",
+}
+_CLEANUP_WORDS = ("remove", "clear", "disable", "stop", "cancel")
+
+
+def unload_cleanup_unconditional(chk, rule):
+    """When a mode unloads a device, every clean-up step of its device_removed_from_mode (removing handlers, clearing delays, disabling,
+    stopping, resetting per-player references) runs on every path: it is unconditional, or guarded only by the presence of the very
+    object it acts on (`if self._show: self._show.stop()`).  A step that depends on anything else (a config flag, the persisted state)
+    leaves handlers of the previous player's turn registered when that condition fails: they keep changing state during another
+    player's turn and the next game."""
+    from sa.model import src as _src, walk_local as _wl, call_attr as _ca
+    repo = chk.repo
+    md = repo.cls("mpf/core/mode_device.py", "ModeDevice")
+    n = 0
+    for c in repo.subclasses(md, strict=False):
+        m = c.methods.get("device_removed_from_mode")
+        if m is None:
+            continue
+        chk.analysed(m)
+        cfg = m.cfg()
+        for node in cfg.nodes:
+            if node.kind == "branch":
+                continue
+            items = []
+            for call in node.calls():
+                nm = _ca(call) or (call.func.id if isinstance(call.func, ast.Name) else "")
+                if any(w in nm for w in _CLEANUP_WORDS) or nm == "device_removed_from_mode":
+                    recv = _src(call.func.value) if isinstance(call.func, ast.Attribute) else ""
+                    items.append((_src(call), recv, call))
+            if node.kind == "stmt" and isinstance(node.ast, ast.Assign) and _src(node.ast.value) in ("None", "[]", "False", "{}", "set()", "list()", "dict()") and \
+                    isinstance(node.ast.targets[0], ast.Attribute):
+                items.append((_src(node.ast), _src(node.ast.targets[0]), node.ast))
+            for text, recv, where in items:
+                n += 1
+                g = cfg.guards_at(node.id)
+                extra = {k: v for k, v in g.items() if not (v is True and (k == recv or recv.startswith(k + ".") or k == "%s is not None" % recv)) and
+                         not (v is False and k in ("not " + recv, "%s is None" % recv, "None is " + recv))}
+                tab = UNLOAD_TABLED.get((c.name, text))
+                chk.ob(rule, "%s.device_removed_from_mode: `%s` runs whenever the device is unloaded" % (c.name, short(where, 50)), not extra or tab is not None,
+                       m.where(where), detail=("tabled: " + tab) if tab else "depends on %s" % sorted(extra.items()), construct=m.ident,
+                       text="conditional unload step %s in %s" % (text[:50], c.name))
+    chk.ob(rule, "unload clean-up steps examined (%d)" % n, n >= 25, "mpf/core/mode_device.py:1", nontrivial=False)
